@@ -44,6 +44,37 @@ POOL = [
     ("shared-exception", DOC_E, None, None, {("a", "a"): "raise_shared"}, 1, "scn"),
     ("shared-exception-other-field", DOC_E, None, None, {("color",): "raise_shared"}, 2, "scn"),
 ]
+# requests for the engine with a custom error coercer that annotates the error it is given (the documented customisation pattern:
+# `error["extensions"]["..."] = ...`) and suspends in between: errors of different requests must not share what the coercer receives
+DOC_I1 = "{ num zzFirstUnknown }"
+DOC_I2 = "{ color zzSecondUnknownField }"
+DOC_I3 = "{ num(zz: 1) }"
+POOL_COERCER = [
+    ("invalid-one", DOC_I1, None, None, {}, 1, "scn"),
+    ("invalid-two-same-rule", DOC_I2, None, None, {}, 1, "scn"),
+    ("invalid-other-rule", DOC_I3, None, None, {}, 1, "scn"),
+    ("raising-library-error", DOC_E, None, None, {("color",): "raise_te"}, 1, "scn"),
+    ("raising-library-error-elsewhere", DOC_E, None, None, {("a", "a"): "raise_te"}, 2, "scn"),
+    ("shared-exception", DOC_E, None, None, {("a", "a"): "raise_shared"}, 1, "scn"),
+    ("shared-exception-other-field", DOC_E, None, None, {("color",): "raise_shared"}, 2, "scn"),
+    ("plain-exception", DOC_E, None, None, {("color",): "raise"}, 1, "scn"),
+    ("invalid-variables", DOC_A, None, {"s": "nope"}, {}, 1, "scn"),
+    ("fine", DOC_E, None, None, {}, 1, "scn"),
+]
+COERCER_SCHED = [None]
+
+
+async def annotating_coercer(exception, error):
+    ext = error.get("extensions")
+    if ext is None:
+        ext = error["extensions"] = {}
+    ext["digest"] = "%d:%s" % (len(error["message"]), error["message"])
+    if COERCER_SCHED[0] is not None:
+        await COERCER_SCHED[0].point(("coercer", error["message"][:20]))
+    ext["path_seen"] = repr(error.get("path"))
+    return error
+
+
 PROBE = ("probe", DOC_A, None, {"s": False}, {}, 4, "scn")
 
 
@@ -64,9 +95,10 @@ def ctx_of(scn, kind):
     return {"scn": scn, "tag": scn.label} if kind == "dict" else scn
 
 
-def alone(schema, req):
+def alone(schema, req, coercer=False):
     """the request run alone on a fresh engine (no cache history)"""
-    engine = harness.build_engine(schema)
+    COERCER_SCHED[0] = None
+    engine = harness.build_engine(schema, **({"error_coercer": annotating_coercer} if coercer else {}))
     scn = mk_scn(schema, req)
     scn.reset()
     harness.CURRENT[0] = scn
@@ -81,24 +113,31 @@ def shards(tier, seed):
     combos = list(itertools.combinations_with_replacement(range(len(POOL)), k))
     if tier == "thorough":
         combos += [c for c in itertools.combinations_with_replacement(range(len(POOL)), 3) if len(set(c)) >= 2][::3]
-    return [(c, tier) for c in combos]
+    items = [(c, tier) for c in combos]
+    items += [(c, tier, "coercer") for c in itertools.combinations_with_replacement(range(len(POOL_COERCER)), 2)]
+    if tier == "thorough":
+        items += [(c, tier, "coercer") for c in itertools.combinations_with_replacement(range(len(POOL_COERCER)), 3) if len(set(c)) >= 2][::3]
+    return items
 
 
 _ALONE = {}
 
 
 def run_shard(item):
-    combo, tier = item
+    combo, tier = item[0], item[1]
+    coercer = len(item) > 2
+    pool = POOL_COERCER if coercer else POOL
     schema = seeds.K
     out = {"counts": {"schedules": 0, "choice_points": 0, "multisets": 1, "nontrivial": 0, "probes": 0}, "tables": {"outcomes": {}},
            "sets": {}, "samples": [], "violations": [], "machinery": [], "caps": []}
     for i in set(combo) | {-1}:
-        req = PROBE if i == -1 else POOL[i]
-        if req[0] not in _ALONE:
-            _ALONE[req[0]] = alone(schema, req)
-    engine = explore.engine_for("K-c15", schema)  # ONE engine shared by every multiset this worker handles
+        req = PROBE if i == -1 else pool[i]
+        if (coercer, req[0]) not in _ALONE:
+            _ALONE[(coercer, req[0])] = alone(schema, req, coercer)
+    # ONE engine shared by every multiset this worker handles
+    engine = explore.engine_for("K-c15-coercer", schema, error_coercer=annotating_coercer) if coercer else explore.engine_for("K-c15", schema)
     loop = sched.VLoop()
-    reqs = [POOL[i] for i in combo]
+    reqs = [pool[i] for i in combo]
     scns = [mk_scn(schema, r) for r in reqs]
     state = {"viol": None, "nontrivial": 0}
     probe_scn = mk_scn(schema, PROBE)
@@ -107,6 +146,7 @@ def run_shard(item):
         for scn in scns:
             scn.reset()
             scn.sched = s
+        COERCER_SCHED[0] = s if coercer else None
         harness.CURRENT[0] = None
         harness.fresh_shared_errors()
 
@@ -128,18 +168,19 @@ def run_shard(item):
                 if isinstance(resp, BaseException):
                     bad = ("execute-raised", r[0], repr(resp))
                     break
-                if norm(resp) != _ALONE[r[0]]:
-                    bad = ("response-differs-from-solo-run", r[0], "got %s alone %s" % (norm(resp), _ALONE[r[0]]))
+                if norm(resp) != _ALONE[(coercer, r[0])]:
+                    bad = ("response-differs-from-solo-run", r[0], "got %s alone %s" % (norm(resp), _ALONE[(coercer, r[0])]))
                     break
         if bad is None:
             # probe afterwards behaves as on a fresh engine
             probe_scn.reset()
+            COERCER_SCHED[0] = None
             harness.CURRENT[0] = probe_scn
             p = harness.run(engine.execute(PROBE[1], operation_name=PROBE[2], context=probe_scn, variables=PROBE[3],
                                            initial_value=probe_scn.root))
             out["counts"]["probes"] += 1
-            if norm(p) != _ALONE["probe"]:
-                bad = ("probe-differs-from-fresh-engine", "probe", "got %s fresh %s" % (norm(p), _ALONE["probe"]))
+            if norm(p) != _ALONE[(coercer, "probe")]:
+                bad = ("probe-differs-from-fresh-engine", "probe", "got %s fresh %s" % (norm(p), _ALONE[(coercer, "probe")]))
         if bad and state["viol"] is None:
             state["viol"] = bad + (list(ex.choices),)
 
@@ -152,10 +193,11 @@ def run_shard(item):
     if state["viol"]:
         clause, victim, detail, choices = state["viol"]
         out["violations"].append({
-            "signature": ("%s|shared-exception-object" % clause) if victim.startswith("shared-exception")
+            "signature": ("%s|annotating-error-coercer" % clause) if coercer
+            else ("%s|shared-exception-object" % clause) if victim.startswith("shared-exception")
             else "%s|victim=%s|with=%s" % (clause, victim, "+".join(sorted(r[0] for r in reqs))),
             "summary": "%s: requests %r victim %s schedule %r: %s" % (clause, [r[0] for r in reqs], victim, choices, detail[:900]),
-            "replay": {"combo": list(combo), "choices": choices}})
+            "replay": {"combo": list(combo), "choices": choices, "coercer": coercer}})
     out["samples"].append({"requests": [r[0] for r in reqs], "schedules": st["executions"]})
     return out
 
@@ -172,11 +214,13 @@ def finish(agg, tier):
                 "(same text / other variables, same text / other operation, other documents, failing, raising, bytes spelling, dict "
                 "context, invalid variables, a shared exception object)%s, all completion orders of their suspended resolvers; after each "
                 "interleaving a probe request. non-trivial = interleavings deviating from FIFO. Every response must equal the solo run "
-                "on a fresh engine" % ("2" if tier == "quick" else "2-3", len(POOL), " and a third of the 3-multisets" if tier == "thorough" else ""),
+                "on a fresh engine. The same over a second pool of %d erroring requests (two invalid documents breaking the same rule, "
+                "another rule, library / shared / plain exceptions, invalid variables) on an engine whose custom error coercer annotates "
+                "the error dict it receives and suspends in between (a choice point of the explorer)" % ("2" if tier == "quick" else "2-3", len(POOL), " and a third of the 3-multisets" if tier == "thorough" else "", len(POOL_COERCER)),
         "exhaustive": True,
     }
 
 
 def replay(rec):
     r = rec["replay"]
-    return run_shard((tuple(r["combo"]), "quick"))["violations"]
+    return run_shard((tuple(r["combo"]), "quick") + (("coercer",) if r.get("coercer") else ()))["violations"]
